@@ -73,6 +73,11 @@ theorem uuidChars_injective (bs cs : List Byte) (hb : bs.length = 16) (hc : cs.l
       byte_inj b10 c10 a10 a10', byte_inj b11 c11 a11 a11', byte_inj b12 c12 a12 a12', byte_inj b13 c13 a13 a13',
       byte_inj b14 c14 a14 a14', byte_inj b15 c15 a15 a15']
 
+/-- **uuidText_injective** — as a function of the UUID value (the 16 bytes after the stamps) the id text is injective.  (As a function
+    of the raw 128 random bits it cannot be: the stamps overwrite 6 of them — see `uuidText_eq_iff`.) -/
+theorem uuidText_injective (bs cs : List Byte) (hb : bs.length = 16) (hc : cs.length = 16)
+    (h : String.ofList (uuidChars bs) = String.ofList (uuidChars cs)) : bs = cs := uuidChars_injective bs cs hb hc h
+
 theorem stamp_length (bs : List Byte) : (stamp bs).length = bs.length := by simp [stamp]
 
 /-- two draws give the same id exactly when they agree on the 122 bits the stamps leave free -/
